@@ -129,6 +129,9 @@ def build_tree(tree):
     os.makedirs(os.path.join(outside, "o1"))
     open(os.path.join(outside, "secret.csv"), "w").write(table_text(777, 0))
     open(os.path.join(outside, "o1", "s2.csv"), "w").write(table_text(778, 0))
+    # a sibling of the root whose name starts with the root's name
+    os.makedirs(os.path.join(base, "root_x"))
+    open(os.path.join(base, "root_x", "secret.csv"), "w").write(table_text(779, 0))
     for fo in tree["folders"]:
         if fo:
             os.makedirs(os.path.join(root, fo), exist_ok=True)
@@ -292,7 +295,7 @@ def g_xfs(nodes, outside):
         else:
             if payload is None:
                 # files not written by the generator (outside/): one table each
-                n = 777 if p.endswith("secret.csv") else 778
+                n = 779 if "/root_x/" in p else (777 if p.endswith("secret.csv") else 778)
                 items.append(g_pair(g_path(p), f"XFile [FBTable {g_nat(n)}]"))
             else:
                 items.append(g_pair(g_path(p), "XFile " + g_blocks(payload, outside)))
